@@ -694,6 +694,8 @@ namespace vh
   {
     std::vector<std::vector<double>> matrices;  // logical view of each matrix handed to Factor
     std::size_t limit = 0;
+    std::vector<double> alphas, errs;  // per attempted Rosenbrock step (RecRosenbrock)
+    std::size_t attLimit = 0;
     static Recorder& get()
     {
       static thread_local Recorder r;
@@ -712,6 +714,51 @@ namespace vh
         for (auto& e : pat)
           v.push_back(m[b][e.first][e.second]);
       matrices.push_back(std::move(v));
+    }
+  };
+
+  /// Rosenbrock solver that records, per attempted step, the alpha handed to AlphaMinusJacobian and the
+  /// error norm returned by NormalizedError (the two CRTP customisation points); behaviour is the library's
+  template<class RatesPolicy, class LinearSolverPolicy>
+  class RecRosenbrock
+      : public micm::AbstractRosenbrockSolver<RatesPolicy, LinearSolverPolicy, RecRosenbrock<RatesPolicy, LinearSolverPolicy>>
+  {
+    using Base = micm::AbstractRosenbrockSolver<RatesPolicy, LinearSolverPolicy, RecRosenbrock<RatesPolicy, LinearSolverPolicy>>;
+
+   public:
+    RecRosenbrock(LinearSolverPolicy&& linear_solver, RatesPolicy&& rates, auto& jacobian, const size_t number_of_species)
+        : Base(std::move(linear_solver), std::move(rates), jacobian, number_of_species)
+    {
+    }
+    RecRosenbrock(RecRosenbrock&&) = default;
+    RecRosenbrock& operator=(RecRosenbrock&&) = default;
+    template<class SparseMatrixPolicy>
+    void AlphaMinusJacobian(SparseMatrixPolicy& jacobian, std::vector<std::size_t>& diag, const double& alpha) const
+    {
+      auto& r = Recorder::get();
+      if (r.alphas.size() < r.attLimit)
+        r.alphas.push_back(alpha);
+      Base::template AlphaMinusJacobian<SparseMatrixPolicy>(jacobian, diag, alpha);
+    }
+    template<class DenseMatrixPolicy>
+    double NormalizedError(const DenseMatrixPolicy& y, const DenseMatrixPolicy& y_new, const DenseMatrixPolicy& errors, auto& state)
+        const
+    {
+      double e = Base::template NormalizedError<DenseMatrixPolicy>(y, y_new, errors, state);
+      auto& r = Recorder::get();
+      if (r.errs.size() < r.attLimit)
+        r.errs.push_back(e);
+      return e;
+    }
+  };
+
+  struct RecRosParams : micm::RosenbrockSolverParameters
+  {
+    template<class RatesPolicy, class LinearSolverPolicy>
+    using SolverType = RecRosenbrock<RatesPolicy, LinearSolverPolicy>;
+    RecRosParams(const micm::RosenbrockSolverParameters& p)
+        : micm::RosenbrockSolverParameters(p)
+    {
     }
   };
 
@@ -902,6 +949,9 @@ namespace vh
     auto& rec = Recorder::get();
     rec.matrices.clear();
     rec.limit = in.traceLimit;
+    rec.alphas.clear();
+    rec.errs.clear();
+    rec.attLimit = in.traceLimit > 0 ? 48 : 0;
     micm::SolverResult res = in.clamp ? solver.Solve(in.dt, state) : solver.Solve(in.dt, state, params);
     Out o;
     o.os << "solve status=" << statusName(res.state_) << " final=" << hexd(res.final_time_) << " stats="
@@ -925,6 +975,12 @@ namespace vh
       }
       o.os << ']';
     }
+    o.key("att");
+    for (std::size_t i = 0; i < rec.alphas.size(); ++i)
+    {
+      o.sep();
+      o.os << hexd(rec.alphas[i]) << ':' << (i < rec.errs.size() ? hexd(rec.errs[i]) : std::string("-"));
+    }
     return o.os.str();
   }
 
@@ -934,8 +990,8 @@ namespace vh
     SolveInput in = solveInput(t);
     if (integ == 0)
     {
-      auto p = rosParams(t);
-      return runSolve<typename BuilderOf<micm::RosenbrockSolverParameters, L, CSC, KIND>::type>(in, p);
+      RecRosParams p(rosParams(t));
+      return runSolve<typename BuilderOf<RecRosParams, L, CSC, KIND>::type>(in, p);
     }
     auto p = beParams(t);
     return runSolve<typename BuilderOf<micm::BackwardEulerSolverParameters, L, CSC, KIND>::type>(in, p);
@@ -973,21 +1029,26 @@ namespace vh
     std::vector<micm::Species> sp;
     for (std::size_t i = 0; i < ns; ++i)
       sp.push_back(micm::Species("s" + std::to_string(i)));
-    auto solver = BuilderT(params)
+    auto solver_v = BuilderT(params)
                       .SetSystem(micm::System(micm::SystemParameters{ .gas_phase_ = micm::Phase{ sp } }))
                       .SetReactions(procs)
                       .SetNumberOfGridCells(ncell)
                       .SetReorderState(false)
                       .Build();
     // a second solver for the same system (other integrator or other coefficient set): its States have the same C++ type
-    auto solver2 = BuilderT2(params2)
+    auto solver2_v = BuilderT2(params2)
                        .SetSystem(micm::System(micm::SystemParameters{ .gas_phase_ = micm::Phase{ sp } }))
                        .SetReactions(procs)
                        .SetNumberOfGridCells(ncell)
                        .SetReorderState(false)
                        .Build();
-    using ST = decltype(solver.GetState());
-    static_assert(std::is_same_v<ST, decltype(solver2.GetState())>);
+    // the solvers live behind pointers so that the history can move them (construct / assign)
+    using S1 = decltype(solver_v);
+    using S2 = decltype(solver2_v);
+    auto sv1 = std::make_unique<S1>(std::move(solver_v));
+    auto sv2 = std::make_unique<S2>(std::move(solver2_v));
+    using ST = decltype(sv1->GetState());
+    static_assert(std::is_same_v<ST, decltype(sv2->GetState())>);
     std::vector<std::unique_ptr<ST>> store(8);
     std::vector<int> owner(8, 0);  // which solver a State belongs to (copied/moved along with it)
     std::size_t nrx = procs.size();
@@ -1002,14 +1063,14 @@ namespace vh
             if (op == "new")
             {
               auto s = t.nat();
-              store[s] = std::make_unique<ST>(solver.GetState());
+              store[s] = std::make_unique<ST>(sv1->GetState());
               owner[s] = 0;
               return "ok";
             }
             if (op == "new2")
             {
               auto s = t.nat();
-              store[s] = std::make_unique<ST>(solver2.GetState());
+              store[s] = std::make_unique<ST>(sv2->GetState());
               owner[s] = 1;
               return "ok";
             }
@@ -1021,6 +1082,67 @@ namespace vh
               if (!store[s])
                 return "nostate";
               store[s]->SetConcentration(micm::Species("s" + std::to_string(i)), vals);
+              return "ok";
+            }
+            if (op == "setcond")
+            {
+              auto s = t.nat();
+              auto c = t.nat();
+              auto v = t.flts(3);
+              if (!store[s])
+                return "nostate";
+              store[s]->conditions_[c].temperature_ = v[0];
+              store[s]->conditions_[c].pressure_ = v[1];
+              store[s]->conditions_[c].air_density_ = v[2];
+              return "ok";
+            }
+            if (op == "setp")
+            {
+              auto s = t.nat();
+              auto rr = t.nat();
+              auto vals = t.flts(ncell);
+              if (!store[s])
+                return "nostate";
+              store[s]->SetCustomRateParameter("r" + std::to_string(rr), vals);
+              return "ok";
+            }
+            if (op == "calc")
+            {
+              auto s = t.nat();
+              if (!store[s])
+                return "nostate";
+              if (owner[s] == 0)
+                sv1->CalculateRateConstants(*store[s]);
+              else
+                sv2->CalculateRateConstants(*store[s]);
+              Out o;
+              printDense(o, store[s]->rate_constants_);
+              return o.os.str();
+            }
+            if (op == "mvs_c")
+            {
+              // move-construct the solver into a new object; the old one is destroyed
+              auto k = t.nat();
+              if (k == 0)
+                sv1 = std::make_unique<S1>(std::move(*sv1));
+              else
+                sv2 = std::make_unique<S2>(std::move(*sv2));
+              return "ok";
+            }
+            if (op == "mvs_a")
+            {
+              // move-assign: into a temporary and back
+              auto k = t.nat();
+              if (k == 0)
+              {
+                S1 tmp(std::move(*sv1));
+                *sv1 = std::move(tmp);
+              }
+              else
+              {
+                S2 tmp(std::move(*sv2));
+                *sv2 = std::move(tmp);
+              }
               return "ok";
             }
             if (op == "setk")
@@ -1060,7 +1182,7 @@ namespace vh
               double dt = t.flt();
               if (!store[s])
                 return "nostate";
-              auto res = owner[s] == 0 ? solver.Solve(dt, *store[s]) : solver2.Solve(dt, *store[s]);
+              auto res = owner[s] == 0 ? sv1->Solve(dt, *store[s]) : sv2->Solve(dt, *store[s]);
               Out o;
               o.os << statusName(res.state_) << ' ' << hexd(res.final_time_) << ' ' << res.stats_.function_calls_ << ','
                    << res.stats_.jacobian_updates_ << ',' << res.stats_.number_of_steps_ << ',' << res.stats_.accepted_ << ','
@@ -1102,7 +1224,7 @@ namespace vh
                 return "ok";
               }
               if (!store[d])
-                store[d] = std::make_unique<ST>(solver.GetState());
+                store[d] = std::make_unique<ST>(sv1->GetState());
               *store[d] = *store[s];
               owner[d] = owner[s];
               return "ok";
@@ -1136,7 +1258,7 @@ namespace vh
               if (s == d)
                 return "ok";
               if (!store[d])
-                store[d] = std::make_unique<ST>(solver.GetState());
+                store[d] = std::make_unique<ST>(sv1->GetState());
               *store[d] = std::move(*store[s]);
               store[s].reset();
               owner[d] = owner[s];
